@@ -18,6 +18,7 @@ THEOREMS = [
     "O2P.Diagram.runs_wellformed",
     "O2P.Diagram.accepts_iff",
     "O2P.Diagram.subset_sound",
+    "O2P.Diagram.accepts_iff_iso",
 ]
 
 
